@@ -196,6 +196,9 @@ def check_C10(res, scratch, tier, seed):
     run_family(res, scratch, "Dterms", mcdef_cfg("NamesAll", "CodesAll", 2 if tier == "quick" else 3, "LhsPlain", "RhsPlain", 1, 1, [0]), mk, builds=builds, mine=mine, module="MCDef")
     run_family(res, scratch, "Dnames", mcdef_cfg("NamesPlain", "CodesPlain", 0, "LhsAll", "RhsAll", 2, 2, [0]), mk, builds=builds, mine=mine, module="MCDef", timeout=3000)
     run_family(res, scratch, "Dtrans", mcdef_cfg("NamesPlain", "CodesPlain", 0, "LhsPlain", "RhsPlain", 2, 2, [0, 4, 10, 11, 12, 13]), mk, builds=builds, mine=mine, module="MCDef")
+    # the same definitions with every empty translation handed over as a NULL pointer instead of an empty array
+    mk_null = lambda vec: blocks_from_vector(dict(vec, null_empty=True, id="n" + gid_of(vec)), [], define_only=True)
+    run_family(res, scratch, "DtransN", mcdef_cfg("NamesPlain", "CodesPlain", 0, "LhsPlain", "RhsPlain", 2, 2, [0, 4, 10, 11, 12, 13]), mk_null, builds=builds, mine=mine, module="MCDef")
     res.cov["distinct_nontrivial"] = sum(f["vectors"] for f in res.notes["families"])
     corpus_part(res, scratch, tier, seed, "C10", [], ("curated", "chains", "loops", "random", "random_err"), builds=builds, define_only=True, mine=mine)
     res.cov["exhaustive"] = True
@@ -344,7 +347,7 @@ CHECK_DEADLOCK FALSE
 def scripted_behaviours(res, scratch):
     """Behaviours of Api.tla under the two scripts, enumerated exhaustively by TLC (breadth-first)."""
     out = []
-    for sp in ("SpecTwo", "SpecOne"):
+    for sp in ("SpecTwo", "SpecOne", "SpecFlags"):
         cfg = api_cfg([1, 2], 12, [1], [3], [0], ["TypeOK"]).replace("SPECIFICATION Spec", "SPECIFICATION " + sp)
         ts = run_tlc(scratch, "Api", cfg, "api_" + sp, timeout=1500)
         if ts["status"] != "ok":
@@ -481,7 +484,7 @@ def corpus_entries(tier, seed, kinds):
     if "curated" in kinds:
         ents += _corpus.curated()
     if "amb_chains" in kinds:
-        ents += _corpus.ambig_chain_family()
+        ents += _corpus.ambig_chain_family() + _corpus.depth_chain_family()
     if "loops" in kinds:
         ents += _corpus.loop_shapes() + _corpus.loop_repeats()
     if "chains" in kinds:
@@ -548,7 +551,7 @@ def check_C09(res, scratch, tier, seed):
     mine = lambda r: classify(dict(r)) if owner(r["what"], r["cfg"], r.get("calls", 0)) == "C09" else None
     all_groups = []
     # --- part 1: corpus judged by TLC
-    ents = corpus_entries(tier, seed, ("curated", "random", "random_err", "random_trans", "wide"))
+    ents = corpus_entries(tier, seed, ("curated", "amb_chains", "chains", "random", "random_err", "random_trans", "wide"))
     vecs = corpus_vectors(res, scratch, "corpus_C09", ents, trees=False, timeout=3000)
     blocks = [b for b in (blocks_from_vector(v, matrix, mems=(0, 1), want_trees=False) for v in vecs.values()) if b]
     recs, st = run_harness(os.path.join(builds[0], "yv_replay"), blocks, args=("-t",))
